@@ -20,6 +20,7 @@ import re as _re
 _RANDOM_LABEL = _re.compile(r'[0-9a-f]{32}')
 # labels the generators created that do not look random (fixed / derived names): hosts reuse them on purpose
 FIXED_LABELS = set(['new_zero', 'zero', 'one', 'inf_label', 'carry', 'tmp', 'res'])
+CALLER_LABELS = set()   # labels the workload itself asked for (result_labels=...): not names chosen by the library
 GENERATED = []   # circuits returned by generate_* (kept alive; the workload edits them as their owner would)
 AIG_FORBIDDEN = {'XOR', 'NXOR'}
 NS_MAX = 4096
@@ -143,7 +144,7 @@ def check_call(api, before, circuit, operands, outputs, fn, *, weighted=None, ba
         new_gates = [l for l, (t, _) in net.gates.items() if t != 'INPUT']
     if before is not None:
         for l in new_gates:
-            if not _RANDOM_LABEL.search(l) and len(FIXED_LABELS) < 200:
+            if not _RANDOM_LABEL.search(l) and l not in CALLER_LABELS and len(FIXED_LABELS) < 200:
                 FIXED_LABELS.add(l)
     if basis is not None:
         b = basis.upper() if isinstance(basis, str) else basis.value
